@@ -105,10 +105,12 @@ func HarnessC16Folding() {
 	}
 	href := "http://" + lh + "/story/" + []string{"3", "1", "3/", "x3"}[vx.Choose("tail", 4)]
 	text := []string{"next", "prev", "3"}[vx.Choose("text", 3)]
-	doc := vx.ParseHTML(`<html><body><div class="pager"><a href="` + href + `" class="next">` + text + `</a></div></body></html>`)
+	// a <base> element naming the link's host (asset host): the page is still the page
+	base := []string{"", `<head><base href="http://` + lh + `/assets/"></head>`}[vx.Choose("base", 2)]
+	doc := vx.ParseHTML(`<html>` + base + `<body><div class="pager"><a href="` + href + `" class="next">` + text + `</a> <a href="/story/1">previous</a></div></body></html>`)
 	info := NewPrevNextFinder(nil).FindPagination(doc, pageURL)
-	c16Check(info.NextPage, "NextPage", pageURL, []string{href})
-	c16Check(info.PrevPage, "PrevPage", pageURL, []string{href})
+	c16Check(info.NextPage, "NextPage", pageURL, []string{href, "/story/1"})
+	c16Check(info.PrevPage, "PrevPage", pageURL, []string{href, "/story/1"})
 }
 
 type c16Words struct{}
@@ -154,10 +156,11 @@ func HarnessC16PageNumber() {
 			body += `<a href="#p` + label + `">` + label + `</a> `
 		case 5:
 			body += `<a href="http://x.t/a?page=` + label + `">` + label + `</a> `
-		case 6:
-			body += `<a href=" javascript:void(0)">` + label + `</a> `
-		case 7:
-			body += `<a href="JavaScript:;">` + label + `</a> `
+		case 6: // (two spellings, alternating by position)
+			body += []string{`<a href=" javascript:void(0)">`, `<a href="JavaScript:;">`}[i%2] + label + `</a> `
+		case 7: // a real link that carries a fragment
+			hrefs = append(hrefs, mkURL(i)+"#posts")
+			body += `<a href="` + mkURL(i) + `#posts">` + label + `</a> `
 		}
 	}
 	doc := vx.ParseHTML(`<html><body><p>some words</p><div class="pager">` + body + `</div></body></html>`)
